@@ -38,7 +38,9 @@ FIELDS = ["id", "name", "status", "level", "flag"]
 ODD_FIELDS = ["my field", "Ünï", "x2", "_u", "a.b",
               # names that Unicode normalisation would change (micro sign, ohm sign, superscript, combining accent,
               # full-width letters): a name is whatever the caller wrote
-              "time_\u00b5s", "R_\u2126", "m\u00b2", "e\u0301x", "\uff49\uff44"]
+              "time_\u00b5s", "R_\u2126", "m\u00b2", "e\u0301x", "\uff49\uff44",
+              # names with characters that mean something elsewhere (shell wildcards, brackets)
+              "count(*)", "active?", "vals[0]", "a*"]
 
 
 def init_zygote():
